@@ -8,6 +8,7 @@ import NakenVerif.Sim.I8008Impl
 import NakenVerif.Sim.Lc3Impl
 import NakenVerif.Sim.M6502Impl
 import NakenVerif.Sim.StubsImpl
+import NakenVerif.Sim.C1802Impl
 namespace Driver.SimX
 open Driver.Sim NakenVerif.Sim
 
@@ -128,6 +129,27 @@ def ebpf (kv : KV) (cells : List (BitVec 32 × BitVec 8)) : String :=
     kvOut [("pc", s.pc.toNat), ("cyc", getU kv "cyc"), ("stop", b2n s.stopRunning), ("show", b2n s.showOn)] ++ "," ++
       arrOut "reg" 8 (s.reg.map fun v => v.truncate 32)
 
+def c1802 (kv : KV) (cells : List (BitVec 32 × BitVec 8)) : String :=
+  let g (k : String) : BitVec 8 := .ofNat 8 (getU kv k)
+  let s : C1802.State := {
+    d := g "d", p := g "p", x := g "x", t := g "t", n := g "n", i := g "i", b := g "b", cntr := g "cntr", cn := g "cn",
+    df := g "df", q := g "q", mie := g "mie", cie := g "cie", xie := g "xie", cil := g "cil", etq := g "etq",
+    r := Vector.ofFn (fun i : Fin 16 => .ofNat 16 (getEl kv "r" i.val 4)),
+    cycleCount := .ofNat 32 (getU kv "cyc"),
+    breakIo := if (kv.lookup "bio").isSome then .ofNat 32 (getU kv "bio") else 0xfffffff0,
+    stopRunning := bit kv "stop", showOn := bit kv "show" }
+  match C1802.step (memOf cells) s with
+  | .fault w => "fault " ++ w
+  | .ok (_, _, some st) => "exit=" ++ toString st.toNat
+  | .ok (o, m, none) =>
+    let s := o.state
+    "ret=" ++ toString o.ret ++ " " ++
+      kvOut [("d", s.d.toNat), ("p", s.p.toNat), ("x", s.x.toNat), ("t", s.t.toNat), ("n", s.n.toNat), ("i", s.i.toNat),
+        ("b", s.b.toNat), ("cntr", s.cntr.toNat), ("cn", s.cn.toNat), ("df", s.df.toNat), ("q", s.q.toNat), ("mie", s.mie.toNat),
+        ("cie", s.cie.toNat), ("xie", s.xie.toNat), ("cil", s.cil.toNat), ("etq", s.etq.toNat),
+        ("cyc", s.cycleCount.toNat), ("stop", b2n s.stopRunning), ("show", b2n s.showOn)] ++ "," ++ arrOut "r" 4 s.r ++
+      " mem=" ++ renderMem m (cells.map (·.1)) (o.writes.map (·.1))
+
 def handle (args : List String) : String :=
   match args with
   | [cpu, st, cells] =>
@@ -140,6 +162,7 @@ def handle (args : List String) : String :=
       else if cpu == "6502" then m6502 kv cells
       else if cpu == "tms9900" then tms9900 kv cells
       else if cpu == "ebpf" then ebpf kv cells
+      else if cpu == "1802" then c1802 kv cells
       else "not-modelled"
     | none => "bad-op"
   | _ => "bad-op"
